@@ -199,6 +199,165 @@ CLAIMED["C09"] = (
     "Lean 4 proof (add/remove inverse, counting, failure atomicity via one undo log) with failure-injection correspondence; GC clause tested",
     "DESIGN.md §5 C09, §10.2")
 
+CLAIMED["C11"] = (
+    "Lean 4 theorems over a transcription of the deferring-trait code paths (prefix classification and the four "
+    "delegate_attr_name rules, get_delegate_pattern / _trait_delegate_name, getattr_delegate, the setattr_delegate walk with its "
+    "100-step limit, assign/delete paths, base_trait, the delegate listener bookkeeping and the notification cascade): "
+    "listenedName = targetName for all four prefix styles and all names (the lemma finding F5 falsified; witnesses show the stripped "
+    "prefix breaks it), read-through in every reachable state, DelegatesTo never holds a local value and writes land on the "
+    "delegate validated by its trait, PrototypedFrom link / local assignment / del re-links, delegate swap, chains up to the "
+    "recursion limit (limit exceeded = DelegationError, nothing changed), hooks never fail (after fix bead785), notification of "
+    "linked attributes exactly once on acyclic graphs and never for unlinked ones — all along every history (induction via one "
+    "Effect relation). Full-strength clauses the code violates are kept as defs with proved refutations (F19 '*' chains with "
+    "different __prefix__, F20 DelegatesTo through PrototypedFrom). Correspondence: generated class shapes x histories, model vs "
+    "real code incl. ListenerItem.active and __listener_traits__ white-box state.",
+    "Trusted: Lean kernel, standard axioms; no translator for this cluster (tie = correspondence + oracle); listener machinery "
+    "abstracted to 'hooked on at most one object'; values are small ints; delegate graphs kept acyclic except the guarded cycle "
+    "probe (cyclic read = RecursionError after fix ec4908f); harness.",
+    "Lean 4 proof (Effect relation, invariants over histories) with model-code correspondence",
+    "DESIGN.md §5 C11, §10.2")
+
+CLAIMED["C02"] = (
+    "Lean 4 theorems over a transcription of setattr_trait (changed seeded from the comparison mode, when the old value is "
+    "fetched, default materialisation without notification, identity/equality comparison, TRAIT_SETATTR_ORIGINAL_VALUE, delete "
+    "path), setattr_event, getattr_trait, call_notifiers (copied list, veto, no-notify) and the three wrapper layers "
+    "(_change_accepted, ctrait_prevent_event): for every assignment history, comparison mode, handler mix, position and subset of "
+    "raising handlers each handler's call log equals the specification filter realChanges written from the property text "
+    "(C02_exactly_once_partial for traits that store the validated value — finding F22 for TRAIT_SETATTR_ORIGINAL_VALUE traits has a "
+    "proved negation witness —, _observe, _event), truthful old/new, the three mechanisms see the same sequence (== / != "
+    "consistency is a stated hypothesis with a necessity witness), rejected assignments and default reads are silent, and the "
+    "final state does not depend on which handlers raise. Enum and flag values, the changed seed, the identity comparisons and the "
+    "kind->handler tables are regenerated from the source by a translator and proved equal to the model's. Correspondence: real "
+    "classes with the three mechanisms in all orders x modes x value pools (equal-not-identical, NaN, arrays, raising __eq__).",
+    "Trusted: Lean kernel, standard axioms; translator enums; == / != of values enter as tables computed from the real objects; "
+    "re-raising exception handlers, self-removing handlers, vetoes, trait_setq and raising post_setattr are modelled and compared but "
+    "outside the theorems' hypotheses; re-entrant handlers, threads/dispatch variants, delegation and properties not modelled; harness.",
+    "Lean 4 proof (handler logs = specification filter of the history) with translated constants and model-code correspondence",
+    "DESIGN.md §5 C02, §10.2")
+CLAIMED["C10"] = (
+    "Lean 4 theorems over a transcription of default_value_for (all 11 default_value_type cases with an allocation counter), "
+    "getattr_trait, TraitType.clone for subclass-overridden defaults, _name_default binding and instance-trait cloning "
+    "(get_trait(..., 2)) in a world of classes and instances: first read returns and stores what default_value_for computes, the "
+    "factory / _name_default runs at most once per (instance, name) over any history, later reads return the same object, no read "
+    "reaches a handler, an operation on instance i leaves classes, other instances' records, defaults and call logs untouched "
+    "(non-interference; isolation along histories), defaults of copy-promising kinds are fresh (C10_fresh_partial; the full "
+    "statement is false for a list/dict default of Any overridden in a subclass — F9/F9b, upstream #1630 — with a proved "
+    "witness). The default_value_for cases and clone sets are tied to the source by the translated enums.",
+    "Trusted: Lean kernel, standard axioms; translator enums; containers are an id plus a multiset of elements; nested mutables "
+    "inside Any([...]) templates are shared by design of the shallow copy; raising factories are retried (observed, tagged); harness.",
+    "Lean 4 proof (non-interference and once-only by induction over histories) with translated constants and twin-run correspondence",
+    "DESIGN.md §5 C10, §10.2")
+
+CLAIMED["C03"] = (
+    "Lean 4 theorems over three separately transcribed functions on a value lattice (bool/int/float subclasses, numpy scalars, "
+    "objects with __index__/__float__/__complex__ returning or raising, NaN/inf/-0.0, huge ints, None, containers, classes, "
+    "callables, modules): fastAlone (one arm per validate_trait_* C function), fastInCompound (one arm per case of "
+    "validate_trait_complex — the duplication in C is reproduced on purpose) and pyValidate (one arm per Python validate method), "
+    "plus descOf (the fast_validate tuples incl. TraitCompound.set_validate's flattening): the two C copies of every case agree "
+    "for all descriptors and values, a compound is the first accepting alternative in the evaluation order set_validate builds, "
+    "tuples are element-wise with input re-use iff unchanged, and fast = Python for every non-compound trait type and for all "
+    "clean compound trees of any nesting (C03_agree_partial / _compound_partial). The full statement is kept as a def and refuted "
+    "by five proved witnesses, each a known finding (F11 tuple subclass exact type, F40 Callable(allow_none=False), F41/F42 "
+    "coerce, F47 Instance(object) and None, F43 foreign exceptions in compound alternatives). validate_handlers[], the case labels "
+    "of validate_trait_complex and _trait_set_validate, the ValidateTrait enum and the in_float_range comparisons are regenerated "
+    "from the source on every run and proved equal to the model's tables. Correspondence: both real paths (ctrait.validate and "
+    "handler.validate) vs both model functions on the full single-trait grid x value lattice and random compounds.",
+    "Trusted: Lean kernel, standard axioms; translator validate_tables; Py.Val is a hand model of isinstance/==/hash/operator.index/"
+    "PyFloat_AsDouble/int->double rounding, checked against CPython and numpy on every run; calling a type object, re.match, "
+    "np.asarray, np.can_cast, adapt and user validator functions are parameters fed from the real calls (EnvOK hypotheses); harness.",
+    "Lean 4 proof (agreement of three transcriptions, by cases and structural induction on compound nesting) with translated tables and correspondence",
+    "DESIGN.md §5 C03, §10.2")
+CLAIMED["C01"] = (
+    "Lean 4 theorems: inDomain (the declared criteria written from the documentation, independently of both validators) and Conv "
+    "(documented conversion) hold of whatever validate accepts — for Int…CBool, float and int Range with NaN and exclusive bounds, "
+    "Enum, Map, Tuple, Instance in all adapt modes, Type, This, Callable, Module, String (all variants), PrefixList, PrefixMap, "
+    "Array and the legacy handlers, at any nesting of Tuple/Either/Union/TraitCompound (C01_sound_partial; the full statement is "
+    "refuted by the coerce witness, F42); a TraitError leaves every attribute untouched (C01_reject, _iff); any other exception "
+    "leaves the state untouched and has one of the listed sources (the value's own conversion protocol, overflow, …; F45 BaseEnum "
+    "witness); over every history of assignments every readable value of a declared attribute is in its domain (C01_readable) and "
+    "shadow = map[value] (C01_mapped). Correspondence: real attribute assignment, constructor keyword and trait_set on a "
+    "three-attribute object vs the model; oracle = an independent Python reference predicate per trait type.",
+    "Trusted: as C03; regex matching and numpy casting are parameters fed from the real calls; defaults are C10's subject; the "
+    "TraitError message naming the attribute is checked by the oracle only; harness.",
+    "Lean 4 proof (soundness w.r.t. an independent domain predicate; invariant over assignment histories) with correspondence",
+    "DESIGN.md §5 C01, §10.2")
+
+CLAIMED["C15"] = (
+    "Lean 4 theorems over a model of the observe mini-language (lexer incl. the contextual items-after-+ rule, an AST in which '*' "
+    "followed by a connector is unrepresentable, a total recursive-descent parser with proved fuel sufficiency, render with "
+    "arbitrary whitespace and redundant brackets, the compile functions of parsing.py/expression.py incl. the branch dedupe of fix "
+    "4a0994c, graph equality, and an independent denotation written from the documentation): the grammar data regenerated from "
+    "_dsl_grammar.lark on every run equals the model's (proof obligation), a token string is derivable iff it is the tokens of a "
+    "tree, the parser accepts exactly the grammar language, every rendering of every tree parses back (unbounded depth/length), "
+    "everything accepted is a rendering ('*' only terminal), compiled paths = documented denotation, the notify law, the four "
+    "alternatives of items, spelling invariance (brackets, associativity, whitespace) so that removal by text matches "
+    "registration by text, compilation is total (C15_accepts_all at full strength after the fix). F17 (the manual's '[a.*, b.c]' is "
+    "rejected by the grammar) is a known finding. Correspondence: real parse/compile_str vs the model on ALL strings of up to 4 "
+    "(quick) / 6 (thorough, 2.06 million) symbols of an 11-symbol alphabet plus random decorated derivations and near-misses; the "
+    "oracle also registers and removes by equivalent spellings on real objects.",
+    "Trusted: Lean kernel, standard axioms; translator grammar; the generated LALR tables are not modelled (tied by the exhaustive "
+    "short-string correspondence); Python's \\w on non-ASCII is a parameter table; Lark's WS is taken from the generated parser's "
+    "terminal table; commutativity of ',' is checked by correspondence/oracle only; harness.",
+    "Lean 4 proof (parser = grammar both directions; compile = denotation; spelling invariance) with translated grammar and exhaustive short-string correspondence",
+    "DESIGN.md §5 C15, §10.2")
+
+CLAIMED["C20"] = (
+    "Lean 4 theorems over a model of sync_trait (the __sync_trait__ tables as one insertion-ordered edge list, the lock tables, "
+    "registration of the scalar and _items handlers as state, _sync_trait_modified and _sync_trait_items_modified after fixes "
+    "7706111 and d1bf550, the weakref callback) in a world of N objects whose lists mutate through C05's TraitList.step behind "
+    "C04's guard so that events are exactly C05's: the lock tables are empty after every command (induction over histories), the "
+    "nested propagation terminates (budget independence; depth 2 for a pair or hub), scalar convergence, list convergence after every "
+    "mutator incl. extended slices (the partner's operation is C05's replay of the event) under the decidable link-graph condition "
+    "NoRevisit (discharged for pairs and hubs), at most one change and one notification per trait per assignment, one-way links, "
+    "removal, partner death, only the object's own validator or list operation ever raises, and C20_converge_history: after every "
+    "history of assignments, mutators, mutual link/unlink and object deaths on one mutual link both sides are equal while it is "
+    "present. Two full-strength statements are kept as defs with proved refutations (F60 three lists linked in a cycle diverge; "
+    "F61 the items handler is registered only with the first partner). Correspondence: two- and three-sided histories incl. "
+    "gc.collect() at any point, model vs real code incl. lock tables and handler counts.",
+    "Trusted: Lean kernel, standard axioms; Py.List/TraitList/guardLen shared with C05/C04; old != new is structural inequality of "
+    "the harness values; the depth budget stands for CPython's recursion limit; garbage collection of a partner is real in the "
+    "harness (gc.collect) and a `kill` command in the model — that a dead partner is really collected is tested, not proved; harness.",
+    "Lean 4 proof (lock invariant and convergence by induction over histories, on top of C05's replay law) with model-code correspondence",
+    "DESIGN.md §5 C20, §10.2")
+
+CLAIMED["C14"] = (
+    "Lean 4 theorems over a model of object persistence (getstate of non-transient traits, container __getstate__ dropping "
+    "owner/trait/notifiers, setstate = re-assignment of every value through validation so that nested containers are re-wrapped "
+    "and re-bound, copy_traits / clone_traits / __deepcopy__ with per-trait copy metadata, ReadOnly/transient kinds) over nested "
+    "container values: a pickle round trip of any well-formed object is value-equal on persisted traits with transient traits "
+    "absent (structural induction on nested values), every container at a declared position at every depth is a new Trait*Object "
+    "bound to the copy, no node identity is shared under pickle / deepcopy (full strength after fix 50c4e1f) / deep clone and "
+    "exactly the sharing ref/shallow metadata ask for otherwise, the copy is a live state (invalid items rejected at any path, "
+    "owner notified), ReadOnly stays written; CTrait state: for every trait in the inductive closure of the constructing API calls "
+    "setstateIdx (getstateIdx t) = t, resting on table coverage proved by decide over the C handler tables regenerated from "
+    "ctraits.c on every run (reverting fix ad5fa01 breaks this obligation and crashes the subprocess probe). Clauses the code "
+    "violates are refuted with witnesses (F71 deep copy of an unpickled Trait*Object, F72 all-transient class clones everything). "
+    "Correspondence: objects after arbitrary container histories x pickle protocols 0-5, copy, deepcopy, clone modes, per-trait "
+    "metadata; Instance graphs and CTrait round trips of every trait type in a crash-isolated subprocess.",
+    "Trusted: Lean kernel, standard axioms; translator ctables; pickle/copy drivers and Instance graphs are modelled as leaves and "
+    "covered by oracle-only graph cases; leaf validators are parameters (Idem, CopyStable, WFObj = the invariants C01/C04 "
+    "establish); hostile __setstate__ tuples excluded; harness.",
+    "Lean 4 proof (round trip, re-binding, no sharing by structural induction; table coverage by decide over translated C tables) with correspondence",
+    "DESIGN.md §5 C14, §10.2")
+CLAIMED["C18"] = (
+    "PARTIAL BY NATURE. What a Lean model can carry is proved: (a) table-index safety over the C handler tables, guards and "
+    "constants regenerated from ctraits.c on every run — func_index terminates inside the array for every function assignable to "
+    "a field, getstate/setstate indices in bounds, all six guarded index variables in bounds and non-NULL, default_value_type "
+    "guard covers every case that subscripts the default tuple, state tuple layout agrees between getstate and setstate; (b) a "
+    "reference ledger for attribute get/set: a rejected assignment or a read whose factory raises leaves held counts unchanged, a "
+    "success changes them by exactly the slots written, untouched objects keep their count, exact after fix f934ab1. The "
+    "correspondence compares sys.getrefcount deltas of every value, name and object passed in around each real operation with the "
+    "ledger. What it cannot carry — out-of-bounds access, use-after-free, undefined behaviour — is runtime truth: the thorough "
+    "tier runs ~4000 generated API programs (re-entrant handlers, callbacks raising at each ordinal, add/remove trait, pickling, "
+    "gc at every point) in a subprocess against a clang-14 ASan+UBSan build of the extension, the quick tier fewer programs on the "
+    "normal build watching for crashes; a report or crash is a violation with the program as replay. That tier is failing-input "
+    "search, not proof, and is labelled so in the evidence. NULL dereferences through raw CTrait(kind) objects (F75-F78) are known findings.",
+    "Trusted: Lean kernel, standard axioms; translator ctables (regex reader, fails closed); ledger scope is TraitKind.trait with "
+    "non re-entrant handlers; tuple-shape agreement between _trait_set_validate cases and each validate_* function is exercised "
+    "only under the sanitizer; no allocation-failure injection; hostile __setstate__ tuples excluded; the sanitizer tier is search; harness.",
+    "Lean 4 proof (table-index safety by decide over translated C tables; reference ledger) + refcount correspondence; sanitizer runs as failing-input search",
+    "DESIGN.md §5 C18, §10.2")
+
 NOT_YET = "check not built yet in this round (planned in DESIGN.md §9); not claimed until it exists"
 
 
